@@ -756,7 +756,7 @@ func runC14In(c c14Case, st *drv.Stats, bubble bool) (fail *drv.Failure) {
 			return f
 		}
 		sig, msg := c14Stuck(h)
-		if sig == "handler-send-blocked:handler-running+client-send-blocked:handler-running" {
+		if strings.Contains(sig, "handler-send-blocked:handler-running") && strings.Contains(sig, "client-send-blocked:handler-running") {
 			// Both scripts are in Send and neither has returned: each direction holds
 			// as much as the connection buffers. No transport promises unbounded
 			// buffering, so this is the two scripts' own making; the planner, which works
